@@ -102,7 +102,7 @@ class SimEvent:
 
     def set(self):
         self.flag = True
-        self.s.log("set", id(self) % 1000)
+        self.s.log("set")
         self.s.yield_point()
 
     def clear(self):
@@ -230,6 +230,11 @@ class Sched:
         self.by_real[_rt.get_ident()] = main
         self.cur = main
         self.main = main
+        # the cyclic garbage collector runs finalisers (e.g. closes abandoned generators of traced files) at allocation-count
+        # dependent instants: off during the run, collected afterwards with tracing off
+        import gc
+        gc.collect()
+        gc.disable()
         if self.trace_files:
             sys.settrace(self.tracer)
         try:
@@ -238,6 +243,8 @@ class Sched:
             sys.settrace(None)
             main.state = "dead"
             self._release_all()
+            gc.enable()
+            gc.collect()
 
     def _release_all(self):
         """let every remaining sim-thread unwind (SimAbort at its next primitive)"""
@@ -349,17 +356,31 @@ class Sched:
         if event == "call":
             fn = frame.f_code.co_filename
             if fn.endswith(self.trace_files):
-                return self._line
-        return None
+                # the first 'line' event of a frame is not a pre-emption point: CPython 3.12 does not deliver it the first time a
+                # code object runs under sys.settrace in a process, which would shift the whole PRNG stream of that run
+                # Likewise a 'line' event that repeats the frame's previous line number (re-delivered when a call made on that
+                # line returns) depends on how far the adaptive interpreter has specialised the code object: ignored.
+                first = [True]
+                last = [None]
 
-    def _line(self, frame, event, arg):
-        if event == "line" and not self.aborted and self.preempt_p:
-            me = self.by_real.get(_rt.get_ident())
-            if me is not None and me is self.cur and self.rng.random() < self.preempt_p:
-                self.preempts += 1
-                self.log("preempt", os.path.basename(frame.f_code.co_filename), frame.f_lineno)
-                self._pick_and_go()
-        return self._line
+                def line(frame, event, arg):
+                    if event == "line":
+                        ln = frame.f_lineno
+                        if first[0]:
+                            first[0] = False
+                            last[0] = ln
+                        elif ln == last[0]:
+                            pass
+                        elif not self.aborted and self.preempt_p:
+                            last[0] = ln
+                            me = self.by_real.get(_rt.get_ident())
+                            if me is not None and me is self.cur and self.rng.random() < self.preempt_p:
+                                self.preempts += 1
+                                self.log("preempt", os.path.basename(frame.f_code.co_filename), frame.f_lineno)
+                                self._pick_and_go()
+                    return line
+                return line
+        return None
 
     # ------------------------------------------------------------ the module objects handed to cloudsync
     def sleep(self, secs):
